@@ -44,6 +44,7 @@ def plan(tier, seed):
     specs += [{"kind": "laws", "n": 3000 if tier == "quick" else 40000} for _ in range(2 if tier == "quick" else 6)]
     specs += [{"kind": "predicates"}]
     specs += [{"kind": "rebind", "n": 1500 if tier == "quick" else 8000} for _ in range(3 if tier == "quick" else 12)]
+    specs += [{"kind": "longchains", "n": 150 if tier == "quick" else 1500} for _ in range(2 if tier == "quick" else 4)]
     return specs
 
 
@@ -536,6 +537,56 @@ def run_rebind(spec, ctx):
         ctx.sample_maybe({"rebind_program": prog[:400]}, 0.004)
 
 
+def run_long_chains(spec, ctx):
+    """one operator repeated 65..120 times: still left-associative, whatever the operand kinds (decimal rounding,
+    string and list concatenation are not associative across kinds)"""
+    R = Runner(ctx)
+    r = ctx.rng
+    for _ in range(spec["n"]):
+        n = r.choice([65, 66, 70, 80, 96, 100, 120, 64, 63, 33])
+        shape = r.choice(["dec+", "dec*", "str+", "list+", "mixed+", "int-dec+", "sub", "div", "mixed-ops"])
+        if shape == "dec+":
+            ops, leaves = ["+"] * (n - 1), [("dec", r.choice([0.1, 0.2, 0.3, 1e16, -1e16, 0.7, 1.1])) for _ in range(n)]
+        elif shape == "dec*":
+            ops, leaves = ["*"] * (n - 1), [("dec", r.choice([1.1, 0.9, 1.01, 0.99, 3.0, 1.0 / 3.0])) for _ in range(n)]
+        elif shape == "str+":
+            ops, leaves = ["+"] * (n - 1), [("str", "s")] + [("int", r.randint(0, 9)) for _ in range(n - 1)]
+        elif shape == "list+":
+            ops, leaves = ["+"] * (n - 1), [("list", ())] + [("int", r.randint(0, 9)) for _ in range(n - 1)]
+        elif shape == "mixed+":
+            ops, leaves = ["+"] * (n - 1), [("int", r.randint(0, 9)) for _ in range(n)]
+            leaves[r.randrange(1, n)] = ("str", "|")
+        elif shape == "int-dec+":
+            ops, leaves = ["+"] * (n - 1), [("int", 2**53)] + [("int", 1) for _ in range(n - 2)] + [("dec", 0.0)]
+        elif shape == "sub":
+            ops, leaves = ["-"] * (n - 1), [("int", r.randint(0, 99)) for _ in range(n)]
+        elif shape == "div":
+            ops, leaves = ["/"] * (n - 1), [("int", 10**60)] + [("int", r.choice([1, 2, 3, -1])) for _ in range(n - 1)]
+        else:
+            ops, leaves = [r.choice(["+", "-", "+"]) for _ in range(n - 1)], [("dec", r.choice([0.1, 0.2, 1e16])) if r.random() < 0.5 else ("int", r.randint(0, 9)) for _ in range(n)]
+        t = ("lit", leaves[0])
+        for op, lf in zip(ops, leaves[1:]):
+            t = ("bin", op, t, ("lit", lf))
+        text = " ".join([lit(leaves[0])] + [x for op, lf in zip(ops, leaves[1:]) for x in (op, lit(lf))])
+        ctx.case(("long-chain", text), nontrivial=True)
+        ctx.count("long_chains")
+        want = ref_outcome(ctx, t, {})
+        if want is None:
+            continue
+        o, _ = R.ev("do [0, %s] catch 'ERROR' do [1, 'ERROR'] end end" % text)
+        if o.kind != "value":
+            ctx.violation("C02:long-chain:escape-%s" % o.kind, "%d operands: %s -> %s %s" % (n, text[:200], o.kind, core.safe_str(o.exc, 100)), {"src": text})
+            continue
+        try:
+            got = gv.abstract(o.value)
+        except gv.NotData:
+            got = ("other",)
+        ctx.count("long_chain_evaluations")
+        if not agrees(got, want):
+            ctx.violation("C02:long-chain:%s" % shape, "%d operands: %s ... evaluated to %s, left-to-right definition says %r" % (
+                n, text[:160], core.safe_str(o.value, 120), want if want[0] != "value" else gv.to_source(want[1])[:120]), {"src": text})
+
+
 def run_laws(spec, ctx):
     R = Runner(ctx)
     r = ctx.rng
@@ -624,14 +675,15 @@ def run_predicates(spec, ctx):
 
 
 def run_shard(spec, ctx):
-    {"pairs": run_pairs, "random": run_random, "laws": run_laws, "predicates": run_predicates, "rebind": run_rebind}[spec["kind"]](spec, ctx)
+    {"pairs": run_pairs, "random": run_random, "laws": run_laws, "predicates": run_predicates, "rebind": run_rebind,
+     "longchains": run_long_chains}[spec["kind"]](spec, ctx)
 
 
 def finalize(merged, tier):
     c = merged["counters"]
     reasons = []
     for k in ("grouping_comparisons", "value_comparisons", "chain_conjunction_comparisons", "law_evaluations", "predicate_pairs", "operator_pairs",
-              "rebind_evaluations", "history_evaluations"):
+              "rebind_evaluations", "history_evaluations", "long_chain_evaluations"):
         if c.get(k, 0) == 0:
             reasons.append("monitor counter %s is zero" % k)
     if c.get("renderer_mismatch", 0):
